@@ -50,8 +50,8 @@ def run(chk):
         v = rt.value
         chain = [v] + [rd.value_of(d) for d in (rd.reaching(rt, v.id) if isinstance(v, ast.Name) else [])]
         for e in chain:
-            if isinstance(e, ast.Call) and isinstance(e.func, ast.Attribute) and e.func.attr == "reindex" and e.args:
-                a = e.args[0]
+            if isinstance(e, ast.Call) and isinstance(e.func, ast.Attribute) and e.func.attr == "reindex" and (e.args or kwarg(e, "index") is not None):
+                a = e.args[0] if e.args else kwarg(e, "index")
                 srcs = [unparse(rd.value_of(d)) for d in rd.reaching(rt if e is v else rd.def_stmt(rd.reaching(rt, v.id)[0]), a.id)] if isinstance(a, ast.Name) else [unparse(a)]
                 idx_src = srcs
                 ok = bool(srcs) and all(s == f"{data_param}.df.index" for s in srcs)
